@@ -209,7 +209,7 @@ func (e *explorer) exploreForms(name string, depth int, forms []string, workers 
 		for _, f := range fs {
 			cl := f.Cfg + "/" + f.Class
 			w.classes[cl]++
-			if w.classes[cl] <= 3 {
+			if w.classes[cl] <= 2 {
 				e.reportForms(name, seq, f)
 			}
 		}
@@ -223,7 +223,7 @@ func (e *explorer) reportForms(space string, forms []string, f finding) {
 	e.reported[class]++
 	n := e.reported[class]
 	e.mu.Unlock()
-	if n > 3 {
+	if n > 2 {
 		return
 	}
 	k := formCase{Space: space, Forms: forms, Cfg: f.Cfg}
